@@ -364,6 +364,32 @@ def r13(ctx, R):
                             for y in own_nodes_of(lp)):
                         okm = True
                         why = '%s -> %s' % (src(x.test), r)
+    # ... or the lookup that reports absence: v = <map>.get(<key>) and
+    # "if v is None: raise"
+    from psa.rules.c05 import single_def
+    for x in own_nodes_of(lp):
+        if isinstance(x, ast.If) and x.body and isinstance(
+                x.body[-1], ast.Raise) and x.body[-1].exc is not None:
+            r = ctx.raises.exc_name(f, x.body[-1].exc)
+            if not (r and ctx.raises.is_subclass(r, INVALID_INV)):
+                continue
+            for e, pol in C.lits(x.test, True, []):
+                if isinstance(e, ast.Compare) and len(e.ops) == 1 and (
+                        isinstance(e.ops[0], ast.Is) and pol or
+                        isinstance(e.ops[0], ast.IsNot) and not pol) and \
+                        src(e.comparators[0]) == 'None' and isinstance(
+                            e.left, ast.Name):
+                    d = single_def(f, e.left.id)
+                    v = d.value if d is not None else None
+                    if isinstance(v, ast.Call) and isinstance(
+                            v.func, ast.Attribute) and v.func.attr == 'get' \
+                            and len(v.args) in (1, 2) and (
+                                len(v.args) == 1 or (isinstance(
+                                    v.args[1], ast.Constant)
+                                    and v.args[1].value is None)):
+                        okm = True
+                        why = '%s = %s; %s -> %s' % (
+                            e.left.id, src(v), src(x.test), r)
     R.ob('R1.3', 'check:missing-inventory', okm,
          'an allocation for a class without an inventory row raises '
          'InvalidInventory', why, func=f)
